@@ -64,6 +64,15 @@ def gen_cases(ctx):
                           fkind='module', kwargs={}, schedule=dict(priority=list(range(n)), hold=True, hold_ms=600, quiet_ms=15,
                                                                    expect_draws=nw, expect_busy=nw, hold_max_ms=20000),
                           demand=['N*'], label='withheld', timeout=90))
+    # an element that takes seconds: the bound knows no clock — however long the consumer waits for the oldest result, nothing beyond the
+    # window is drawn
+    for _ in range(1 if ctx.quick else 3):
+        cfg = dict(nworkers=rng.choice([1, 2, 3]), extracache=rng.choice([0, 1]), skipNone=True, maxtasksperchild=None)
+        n = cfg['nworkers'] * 2 + cfg['extracache'] + 3
+        cases.append(dict(cfg=cfg, n=n, tail=None, table=[['u']] * n, fkind='module', kwargs={},
+                          schedule=dict(priority=list(range(n)), hold=True, hold_ms=rng.choice([2300, 2700, 3200]), quiet_ms=15,
+                                        expect_draws=cfg['nworkers'] + cfg['extracache'], expect_busy=cfg['nworkers'], hold_max_ms=20000),
+                          demand=['N*'], label='withheld', timeout=90))
     return cases
 
 
